@@ -528,3 +528,33 @@ Proof.
     exists s', (lag_dem_name c), (fullname s (dem_name c)). repeat split; try assumption.
     now apply deposit_lags_holder.
 Qed.
+
+(** With the single-issuer check (proposed fix D22) success itself gives the issuer. *)
+Lemma length_one {A} (l : list A) : List.length l = 1%nat -> exists a, l = [a].
+Proof. destruct l as [|a [|b l]]; simpl; try discriminate. intros _. now exists a. Qed.
+
+Lemma deposit_generate_checked_ok c issuer mk z z' :
+  deposit_generate_checked c issuer mk z = Ok z' ->
+  deposit_generate c issuer mk z = Ok z' /\ exists i, filter (dep_issuer issuer) z = [i].
+Proof.
+  unfold deposit_generate_checked. destruct (split_sid mk z) as [[[pre m] post]|]; [|discriminate].
+  destruct (negb (is_market m)); [discriminate|].
+  destruct (Nat.eqb (List.length (filter (dep_issuer issuer) z)) 1) eqn:E; [|discriminate].
+  intros H. split; [exact H|]. apply length_one. now apply PeanoNat.Nat.eqb_eq.
+Qed.
+
+Theorem deposit_interest_cancels_checked c issuer mk z z' :
+  deposit_generate_checked c issuer mk z = Ok z' ->
+  has_substring "__" (int_name c) = false ->
+  (forall s, List.In s z -> dep_part c issuer s = true -> int_fresh c s = true) ->
+  forall (v vprev : string -> R) (bv bvp : string -> string -> R),
+  lag_link v vprev (deposit_lags c issuer z) ->
+  (forall s', List.In s' z' -> (dep_issuer issuer s' = true -> holds vprev bvp s' (sup_name c)) /\
+                               (sid s' = mk -> holds vprev bvp s' (dem_name c))) ->
+  (forall s', List.In s' z' -> dep_part c issuer s' = true -> holds v bv s' (int_name c)) ->
+  sumR (booked c issuer v) z = 0 /\ F_total v z' = F_total v z.
+Proof.
+  intros H Hc Hf v vprev bv bvp Hl Hp Hi. apply deposit_generate_checked_ok in H as [H (i & Hone)].
+  destruct (deposit_interest_cancels _ _ _ _ _ H Hc i Hone Hf v vprev bv bvp Hl Hp Hi) as (A & _ & B).
+  now split.
+Qed.
